@@ -184,6 +184,16 @@ Section MachineLemmas.
     unfold stamp_at. simpl in *. rewrite Hc. reflexivity.
   Qed.
 
+  (* what example creates does not depend on what happened before *)
+  Lemma example_independent_of_history_l h s0 p :
+    run files fin h s0 p = None ->
+    content_at (run files fin (h ++ [Run Example]) s0) p = content_at (run files fin [Run Example] empty) p.
+  Proof.
+    intro H. rewrite run_app. simpl step. unfold run_cmd.
+    change (run files fin [Run Example] empty) with (render_all fin 1 empty (files Example)).
+    apply render_all_content_congr. unfold content_at. rewrite H. reflexivity.
+  Qed.
+
   (* a user edit is what is on disk right after it *)
   Lemma edit_is_kept_l h s0 p b :
     run files fin (h ++ [Edit p b]) s0 p = Some (b, 1 + length h).
@@ -199,6 +209,9 @@ Section MachineLemmas.
       apply example_preserves_existing_l; [exact Hs|exact IH].
   Qed.
 End MachineLemmas.
+
+Lemma cleanup_spec s p : cleanup s p = if in_gen_subdir p then None else s p.
+Proof. reflexivity. Qed.
 
 (* ---------------- why the cleanup and SkipExist are load-bearing: witnesses *)
 
